@@ -293,6 +293,43 @@ def ptmNorm (active : List Bool) (t : TopTab) : TopTab :=
   (active.zip t).map fun p =>
     if p.1 then p.2.mapIdx fun j l => l.map (normEntry (ptmNormOf active t j)) else p.2
 
+/-! ## PTM: maintenance of the top-N lists (`insertion_sort_topn`, `eval_topn`, `insertion_sort_cb`, `eval_cb`,
+ptm_mgau.c:70-225).  Densities enter as the `int32` the C code stores (`(int32)d`, or `MAX_NEG_INT32`). -/
+
+/-- `if (d < (mfcc_t)MAX_NEG_INT32) … MAX_NEG_INT32 else (int32)d` (ptm_mgau.c:128-131, 218-221) for an
+integer-valued density -/
+def densInt (d : Int) : Int := if d < int32Min then int32Min else d
+
+/-- the right-to-left scan of both insertion sorts, on the REVERSED list (head = last array element):
+elements are shifted one place towards the end while the new score is better (`strict`: `d > score`,
+`insertion_sort_topn`; otherwise `intd >= score`, `insertion_sort_cb`), then the new entry is stored -/
+def beats (strict : Bool) (e x : TopN) : Bool :=
+  if strict then decide (e.score > x.score) else decide (e.score ≥ x.score)
+
+def insRev (strict : Bool) (e : TopN) : List TopN → List TopN
+  | [] => [e]
+  | x :: xs => if beats strict e x then x :: insRev strict e xs else e :: x :: xs
+
+/-- `insertion_sort_topn(topn, i, d)`: entry `i` (re-scored) is inserted into the prefix `[0, i)` -/
+def insertTopn (e : TopN) (pre : List TopN) : List TopN := (insRev true e pre.reverse).reverse
+
+/-- `eval_topn`: every entry is re-scored in array order and inserted into the prefix before it -/
+def evalTopn (score : Nat → Int) (l : List TopN) : List TopN :=
+  l.foldl (fun pre x => insertTopn { x with score := score x.cw } pre) []
+
+/-- `insertion_sort_cb`: the worst entry is overwritten, entries shift down while `intd >= score` -/
+def insertCb (e : TopN) (l : List TopN) : List TopN := (insRev false e (l.reverse.drop 1)).reverse
+
+/-- `eval_cb` for integer-valued densities (`dens cw` = the raw density, possibly below `MAX_NEG_INT32`): a
+codeword is skipped when its density is below the current worst top-N score (`d < thresh`, tested on the raw
+value) or it is already in the list, otherwise its clamped value is inserted -/
+def evalCb (dens : Nat → Int) (nden : Nat) (l : List TopN) : List TopN :=
+  (List.range nden).foldl (fun l cw =>
+    let d := dens cw
+    if d < (l.getLast?.getD ⟨0, 0⟩).score then l
+    else if l.any (fun e => e.cw == cw) then l
+    else insertCb ⟨cw, densInt d⟩ l) l
+
 /-! ## PTM: `ptm_mgau_senone_eval` -/
 
 /-- mixture weights: 8-bit `mixw[f][cw][sen]`, or 4-bit clustered `mixw_cb[nibble of mixw[f][cw][sen/2]]` -/
